@@ -278,7 +278,7 @@ fn main() {
             let text = std::fs::read_to_string(args.s("case-file", "")).expect("case file");
             let case = cont::ContCase::from_json(&serde_json::from_str(&text).expect("json"));
             let dir = PathBuf::from(args.s("dir", "."));
-            let rc = match util::catch(|| c09::child(&case, &dir, &args.s("name", "c.jbk"), args.u64("ignore-xfsz", 0) == 1)) {
+            let rc = match util::catch(|| c09::child(&case, &dir, &args.s("name", "c.jbk"), args.u64("ignore-xfsz", 0))) {
                 Ok(rc) => rc,
                 Err(_) => 101,
             };
